@@ -237,6 +237,7 @@ int main(int argc,char **argv)
 		std::string w;
 		while(std::cin>>w) {
 			if(w=="store") { int k,n,dl; std::cin>>k>>dl>>n; std::vector<int> ts(n); for(int i=0;i<n;i++) std::cin>>ts[i]; op_store(k,ts,dl); }
+			else if(w=="pressure") { tr.line(vt::J().s("e","Pressure").str()); }
 			else if(w=="bigstore") { int k,dl; long size; std::cin>>k>>dl>>size; op_bigstore(k,dl,size); }
 			else if(w=="fetch") { int k; std::cin>>k; op_fetch(k); }
 			else if(w=="rise") { int k; std::cin>>k; op_rise(k); }
